@@ -85,6 +85,16 @@ func (c *specialCtx) count(sig string) {
 	c.mu.Unlock()
 }
 
+// tally counts an event of the run under item_classes in the evidence (not a case).
+func (c *specialCtx) tally(key string) {
+	c.mu.Lock()
+	if c.st.ClassHist == nil {
+		c.st.ClassHist = map[string]int{}
+	}
+	c.st.ClassHist[key]++
+	c.mu.Unlock()
+}
+
 func (c *specialCtx) finish(outPath string) int {
 	c.st.Distinct = len(c.sigs)
 	c.st.Known = c.knownHit
